@@ -124,7 +124,7 @@ impl Jsonify for FeelContext {
       self
         .0
         .iter()
-        .map(|(name, value)| format!(r#""{}": {}"#, name, value.jsonify()))
+        .map(|(name, value)| format!("{}: {}", crate::values::json_string(&name.to_string()), value.jsonify()))
         .collect::<Vec<String>>()
         .join(", ")
     )
